@@ -794,4 +794,327 @@ theorem NInv.unwrapOne {W : List Wire} {g : MG} {body : Wire → List Nd} (h : N
       · exact Or.inl ⟨hne, h'⟩
       · exact Or.inr h'
 
+/-! ## `unwrap_nodes` -/
+
+def unwrapStep (g : MG) (p : Nd × NOp) : MG :=
+  match p.2 with
+  | .gate (.wrap gs q) => (insertAll p.1 (Wire.ofQ q) (Op.unwrap (.wrap gs q)) g).removeOp p.1
+  | _ => g
+
+theorem unwrapNodes_eq (g : MG) : g.unwrapNodes = (g.nodes.filter (fun p => isWrapper p.2)).foldl unwrapStep g := rfl
+
+theorem opOf_some_pair_mem (g : MG) (n : Nd) (o : NOp) (h : g.opOf n = some o) : (n, o) ∈ g.nodes := by
+  unfold MG.opOf at h
+  cases hf : g.nodes.find? (fun p => p.1 == n) with
+  | none => rw [hf] at h; cases h
+  | some p =>
+    rw [hf] at h
+    have hp := List.find?_some hf
+    have hm := List.mem_of_find?_eq_some hf
+    simp only [beq_iff_eq] at hp
+    simp only [Option.map_some, Option.some.injEq] at h
+    have : p = (n, o) := by cases p; simp_all
+    rw [← this]; exact hm
+
+theorem opOf_of_mem_nodes (l : List (Nd × NOp)) (hn : (l.map (·.1)).Nodup) (p : Nd × NOp) (hp : p ∈ l) :
+    (l.find? (fun x => x.1 == p.1)).map (·.2) = some p.2 := by
+  induction l with
+  | nil => cases hp
+  | cons a rest ih =>
+    simp only [List.map_cons, List.nodup_cons] at hn
+    rcases List.mem_cons.1 hp with rfl | hp'
+    · simp
+    · have hne : a.1 ≠ p.1 := by
+        intro h'
+        apply hn.1
+        rw [h']
+        exact List.mem_map_of_mem hp'
+      have : (a.1 == p.1) = false := by simpa using hne
+      rw [List.find?_cons, this]
+      exact ih hn.2 hp'
+
+theorem opOf_of_mem (g : MG) (hn : (g.nodes.map (·.1)).Nodup) (p : Nd × NOp) (hp : p ∈ g.nodes) : g.opOf p.1 = some p.2 :=
+  opOf_of_mem_nodes g.nodes hn p hp
+
+theorem unwrap_no_wrap (gs : List G1) (q : QReg) (gs' : List G1) (q' : QReg) : Op.wrap gs' q' ∉ Op.unwrap (.wrap gs q) := by
+  intro h
+  simp only [Op.unwrap, List.mem_map] at h
+  obtain ⟨_, _, h⟩ := h
+  cases h
+
+theorem unwrap_fold {W : List Wire} : ∀ (todo : List (Nd × NOp)) (g : MG) (body : Wire → List Nd), NInv W g body →
+    (todo.map (·.1)).Nodup → (∀ p ∈ todo, g.opOf p.1 = some p.2 ∧ isWrapper p.2 = true) →
+    (∀ m gs q, g.opOf m = some (.gate (.wrap gs q)) → m ∈ todo.map (·.1)) →
+    ∃ body', NInv W (todo.foldl unwrapStep g) body' ∧
+      (∀ w ∈ W, (wireOps (todo.foldl unwrapStep g) body' w).flatMap Op.unwrap = (wireOps g body w).flatMap Op.unwrap) ∧
+      (∀ m gs q, (todo.foldl unwrapStep g).opOf m ≠ some (.gate (.wrap gs q))) := by
+  intro todo
+  induction todo with
+  | nil =>
+    intro g body h _ _ hall
+    refine ⟨body, h, fun _ _ => rfl, ?_⟩
+    intro m gs q hm
+    have := hall m gs q hm
+    cases this
+  | cons p rest ih =>
+    intro g body h hnd htodo hall
+    obtain ⟨hp1, hp2⟩ := htodo p (by simp)
+    -- `p` carries a wrapper
+    obtain ⟨gs, q, hpw⟩ : ∃ gs q, p.2 = .gate (.wrap gs q) := by
+      cases hh : p.2 with
+      | input w => rw [hh] at hp2; cases hp2
+      | output w => rw [hh] at hp2; cases hp2
+      | gate o =>
+        cases o with
+        | wrap gs q => exact ⟨gs, q, rfl⟩
+        | one _ _ => rw [hh] at hp2; cases hp2
+        | ctrl _ _ _ => rw [hh] at hp2; cases hp2
+        | cctrl _ _ _ _ => rw [hh] at hp2; cases hp2
+        | meas _ _ => rw [hh] at hp2; cases hp2
+    have hstep : unwrapStep g p = (insertAll p.1 (Wire.ofQ q) (Op.unwrap (.wrap gs q)) g).removeOp p.1 := by
+      unfold unwrapStep; rw [hpw]
+    rw [hpw] at hp1
+    obtain ⟨body1, h1, hT1, hold1, hwr1⟩ := h.unwrapOne p.1 gs q hp1
+    rw [List.foldl_cons, hstep]
+    simp only [List.map_cons, List.nodup_cons] at hnd
+    obtain ⟨body2, h2, hT2, hno⟩ := ih _ body1 h1 hnd.2
+      (by
+        intro p' hp'
+        obtain ⟨a, b⟩ := htodo p' (List.mem_cons_of_mem _ hp')
+        have hne : p'.1 ≠ p.1 := fun h' => hnd.1 (h' ▸ List.mem_map_of_mem hp')
+        exact ⟨by rw [hold1 p'.1 hne (opOf_some_mem g _ _ a)]; exact a, b⟩)
+      (by
+        intro m gs' q' hm
+        rcases hwr1 m _ hm with ⟨hne, hold⟩ | hnew
+        · have := hall m gs' q' hold
+          simp only [List.map_cons, List.mem_cons] at this
+          rcases this with h' | h'
+          · exact absurd h' hne
+          · exact h'
+        · exact absurd hnew (unwrap_no_wrap gs q gs' q'))
+    exact ⟨body2, h2, fun w hw => (hT2 w hw).trans (hT1 w hw), hno⟩
+
+theorem flatMap_unwrap_of_no_wrap (l : List Op) (h : ∀ o ∈ l, ∀ gs q, o ≠ .wrap gs q) : l.flatMap Op.unwrap = l := by
+  induction l with
+  | nil => rfl
+  | cons a rest ih =>
+    rw [List.flatMap_cons, ih (fun o ho => h o (List.mem_cons_of_mem _ ho))]
+    cases a with
+    | wrap gs q => exact absurd rfl (h _ (by simp) gs q)
+    | one _ _ => rfl
+    | ctrl _ _ _ => rfl
+    | cctrl _ _ _ _ => rfl
+    | meas _ _ => rfl
+
+theorem mem_wireOps (g : MG) (body : Wire → List Nd) (w : Wire) (o : Op) (h : o ∈ wireOps g body w) :
+    ∃ n ∈ body w, g.opOf n = some (.gate o) := by
+  unfold wireOps at h
+  obtain ⟨n, hn, hg⟩ := List.mem_filterMap.1 h
+  refine ⟨n, hn, ?_⟩
+  unfold gateAt at hg
+  cases ho : g.opOf n with
+  | none => rw [ho] at hg; cases hg
+  | some x =>
+    rw [ho] at hg
+    cases x with
+    | gate o' => simp only [Option.some.injEq] at hg; rw [hg]
+    | input _ => cases hg
+    | output _ => cases hg
+
+/-! ## `remove_identity` -/
+
+theorem removeIdentity_eq (g : MG) :
+    g.removeIdentity = (g.nodes.filter (fun p => isIdentityNode p.2)).foldl (fun g p => g.removeOp p.1) g := rfl
+
+def nonId (o : Op) : Bool := !o.isIdentity
+
+theorem ident_fold {W : List Wire} : ∀ (todo : List (Nd × NOp)) (g : MG) (body : Wire → List Nd), NInv W g body →
+    (todo.map (·.1)).Nodup → (∀ p ∈ todo, g.opOf p.1 = some p.2 ∧ isIdentityNode p.2 = true) →
+    (∀ m q, g.opOf m = some (.gate (.one .I q)) → m ∈ todo.map (·.1)) →
+    ∃ body', NInv W (todo.foldl (fun g p => g.removeOp p.1) g) body' ∧
+      (∀ w ∈ W, (wireOps (todo.foldl (fun g p => g.removeOp p.1) g) body' w).filter nonId = (wireOps g body w).filter nonId) ∧
+      (∀ m q, (todo.foldl (fun g p => g.removeOp p.1) g).opOf m ≠ some (.gate (.one .I q))) := by
+  intro todo
+  induction todo with
+  | nil =>
+    intro g body h _ _ hall
+    refine ⟨body, h, fun _ _ => rfl, ?_⟩
+    intro m q hm
+    have := hall m q hm
+    cases this
+  | cons p rest ih =>
+    intro g body h hnd htodo hall
+    obtain ⟨hp1, hp2⟩ := htodo p (by simp)
+    obtain ⟨q, hpw⟩ : ∃ q, p.2 = .gate (.one .I q) := by
+      cases hh : p.2 with
+      | input w => rw [hh] at hp2; cases hp2
+      | output w => rw [hh] at hp2; cases hp2
+      | gate o =>
+        cases o with
+        | one g1 q =>
+          cases g1 <;> first | exact ⟨q, rfl⟩ | (rw [hh] at hp2; cases hp2)
+        | wrap _ _ => rw [hh] at hp2; cases hp2
+        | ctrl _ _ _ => rw [hh] at hp2; cases hp2
+        | cctrl _ _ _ _ => rw [hh] at hp2; cases hp2
+        | meas _ _ => rw [hh] at hp2; cases hp2
+    rw [hpw] at hp1
+    have hwires : opWires (.one .I q) = [Wire.ofQ q] := rfl
+    obtain ⟨hwq, _⟩ := h.onPath p.1 _ hp1 (Wire.ofQ q) (by rw [hwires]; simp)
+    obtain ⟨b1, b2, hb, h1, hop1⟩ := h.removeOne p.1 _ hp1 (Wire.ofQ q) hwires
+    rw [List.foldl_cons]
+    simp only [List.map_cons, List.nodup_cons] at hnd
+    have hT1 : ∀ w ∈ W, (wireOps (g.removeOp p.1) (upd body (Wire.ofQ q) (b1 ++ b2)) w).filter nonId = (wireOps g body w).filter nonId := by
+      intro w hw
+      have hbnd : (body (Wire.ofQ q)).Nodup := by
+        have := h.rep.pathNodup _ hwq
+        unfold pathOf at this
+        exact (List.nodup_append.1 (List.nodup_cons.1 this).2).1
+      by_cases hk : w = Wire.ofQ q
+      · subst hk
+        have hpnot : p.1 ∉ b1 ∧ p.1 ∉ b2 := by
+          rw [hb] at hbnd
+          have hperm : (b1 ++ p.1 :: b2).Perm (p.1 :: (b1 ++ b2)) := List.perm_middle
+          have := (List.nodup_cons.1 (hperm.nodup_iff.1 hbnd)).1
+          simp only [List.mem_append, not_or] at this
+          exact this
+        have hkeep : ∀ (l : List Nd), p.1 ∉ l → l.filterMap (gateAt (g.removeOp p.1)) = l.filterMap (gateAt g) := by
+          intro l hpl
+          apply filterMap_gateAt_congr
+          intro n hn
+          have hne : n ≠ p.1 := fun h' => hpl (h' ▸ hn)
+          rw [hop1 n, if_neg hne]
+        unfold wireOps
+        rw [upd_same, hb]
+        simp only [List.filterMap_append, List.filterMap_cons, List.filter_append]
+        have hgp : gateAt g p.1 = some (.one .I q) := by unfold gateAt; rw [hp1]
+        rw [hgp, hkeep b1 hpnot.1, hkeep b2 hpnot.2]
+        simp [nonId, Op.isIdentity]
+      · unfold wireOps
+        rw [upd_other _ _ w _ hk]
+        congr 1
+        apply filterMap_gateAt_congr
+        intro n hn
+        obtain ⟨_, o', _, hop, hwo⟩ := h.rep.bodyOp w hw n hn
+        have hne : n ≠ p.1 := by
+          rintro rfl
+          rw [hp1] at hop
+          injection hop with hop
+          injection hop with hop
+          rw [← hop, hwires, List.mem_singleton] at hwo
+          exact hk hwo
+        rw [hop1 n, if_neg hne]
+    obtain ⟨body2, h2, hT2, hno⟩ := ih _ _ h1 hnd.2
+      (by
+        intro p' hp'
+        obtain ⟨a, b⟩ := htodo p' (List.mem_cons_of_mem _ hp')
+        have hne : p'.1 ≠ p.1 := fun h' => hnd.1 (h' ▸ List.mem_map_of_mem hp')
+        exact ⟨by rw [hop1 p'.1, if_neg hne]; exact a, b⟩)
+      (by
+        intro m q' hm
+        rw [hop1 m] at hm
+        split at hm
+        · cases hm
+        · rename_i hne
+          have := hall m q' hm
+          simp only [List.map_cons, List.mem_cons] at this
+          rcases this with h' | h'
+          · exact absurd h' hne
+          · exact h')
+    exact ⟨body2, h2, fun w hw => (hT2 w hw).trans (hT1 w hw), hno⟩
+
+/-! ## the normalised DAG -/
+
+theorem touches_unwrap (w : Wire) (o o' : Op) (h : o' ∈ Op.unwrap o) : touches w o' = touches w o := by
+  cases o with
+  | wrap gs q =>
+    simp only [Op.unwrap, List.mem_map] at h
+    obtain ⟨_, _, rfl⟩ := h
+    rfl
+  | one _ _ => simp only [Op.unwrap, List.mem_singleton] at h; rw [h]
+  | ctrl _ _ _ => simp only [Op.unwrap, List.mem_singleton] at h; rw [h]
+  | cctrl _ _ _ _ => simp only [Op.unwrap, List.mem_singleton] at h; rw [h]
+  | meas _ _ => simp only [Op.unwrap, List.mem_singleton] at h; rw [h]
+
+theorem filter_touches_flatMap_unwrap (w : Wire) (l : List Op) :
+    (l.flatMap Op.unwrap).filter (touches w) = (l.filter (touches w)).flatMap Op.unwrap := by
+  induction l with
+  | nil => rfl
+  | cons a rest ih =>
+    rw [List.flatMap_cons, List.filter_append, ih]
+    by_cases ha : touches w a = true
+    · rw [List.filter_cons_of_pos ha, List.flatMap_cons]
+      congr 1
+      rw [List.filter_eq_self]
+      intro o ho
+      rw [touches_unwrap w a o ho]; exact ha
+    · rw [List.filter_cons_of_neg ha]
+      have : (Op.unwrap a).filter (touches w) = [] := by
+        rw [List.filter_eq_nil_iff]
+        intro o ho
+        rw [touches_unwrap w a o ho]; exact ha
+      rw [this]; rfl
+
+theorem flat_filter_touches (w : Wire) (l : List Op) :
+    (flat l).filter (touches w) = ((l.filter (touches w)).flatMap Op.unwrap).filter nonId := by
+  unfold flat
+  rw [← filter_touches_flatMap_unwrap, List.filter_filter, List.filter_filter]
+  apply List.filter_congr
+  intro o _
+  unfold nonId
+  rw [Bool.and_comm]
+
+/-- **the normalised DAG (`unwrap_nodes`, `remove_identity`) is a family of register paths carrying the flattened
+    operations** -/
+theorem normalise_graphInv (W : List Wire) (g : MG) (l : List Op) (h : BuildInv W g l) :
+    GraphInv W g.normalise (fun w => (flat l).filter (touches w)) := by
+  obtain ⟨body, r, _, hid, hops, hon, hnames⟩ := h
+  have h0 : NInv W g body := ⟨r, hon, hnames, hid⟩
+  -- unwrap
+  obtain ⟨body1, h1, hT1, hno1⟩ := unwrap_fold (g.nodes.filter (fun p => isWrapper p.2)) g body h0
+    (hnames.sublist (List.Sublist.map _ List.filter_sublist))
+    (by
+      intro p hp
+      obtain ⟨a, b⟩ := List.mem_filter.1 hp
+      exact ⟨opOf_of_mem g hnames p a, b⟩)
+    (by
+      intro m gs q hm
+      have := opOf_some_pair_mem g m _ hm
+      exact List.mem_map.2 ⟨_, List.mem_filter.2 ⟨this, rfl⟩, rfl⟩)
+  rw [← unwrapNodes_eq] at h1 hT1 hno1
+  -- remove identities
+  obtain ⟨body2, h2, hT2, hno2⟩ := ident_fold (g.unwrapNodes.nodes.filter (fun p => isIdentityNode p.2)) g.unwrapNodes body1 h1
+    (h1.names.sublist (List.Sublist.map _ List.filter_sublist))
+    (by
+      intro p hp
+      obtain ⟨a, b⟩ := List.mem_filter.1 hp
+      exact ⟨opOf_of_mem _ h1.names p a, b⟩)
+    (by
+      intro m q hm
+      have := opOf_some_pair_mem _ m _ hm
+      exact List.mem_map.2 ⟨_, List.mem_filter.2 ⟨this, rfl⟩, rfl⟩)
+  rw [← removeIdentity_eq] at h2 hT2 hno2
+  refine ⟨body2, h2.rep, ?_, h2.onPath⟩
+  intro w hw
+  show wireOps g.unwrapNodes.removeIdentity body2 w = (flat l).filter (touches w)
+  rw [flat_filter_touches, ← hops w hw, ← hT1 w hw]
+  have e1 : (wireOps g.unwrapNodes body1 w).flatMap Op.unwrap = wireOps g.unwrapNodes body1 w := by
+    apply flatMap_unwrap_of_no_wrap
+    intro o ho gs q hoq
+    obtain ⟨n, _, hn⟩ := mem_wireOps _ _ _ _ ho
+    rw [hoq] at hn
+    exact hno1 n gs q hn
+  rw [e1, ← hT2 w hw]
+  symm
+  rw [List.filter_eq_self]
+  intro o ho
+  obtain ⟨n, _, hn⟩ := mem_wireOps _ _ _ _ ho
+  unfold nonId
+  cases o with
+  | one g1 q =>
+    cases g1 <;> first | rfl | exact absurd hn (hno2 n q)
+  | wrap _ _ => rfl
+  | ctrl _ _ _ => rfl
+  | cctrl _ _ _ _ => rfl
+  | meas _ _ => rfl
+
 end Graphiq.Compare
